@@ -122,7 +122,8 @@ class BankMachine(Module):
             req.connect(cmd_buffer_lookahead.sink, keep={"valid", "ready", "we", "addr"}),
             cmd_buffer_lookahead.source.connect(cmd_buffer.sink),
             cmd_buffer.source.ready.eq(req.wdata_ready | req.rdata_valid),
-            req.lock.eq(cmd_buffer_lookahead.source.valid | cmd_buffer.source.valid),
+            # (level also counts a command still inside a buffered look-ahead FIFO, not yet visible on its source)
+            req.lock.eq(cmd_buffer_lookahead.source.valid | (cmd_buffer_lookahead.level != 0) | cmd_buffer.source.valid),
         ]
 
         slicer = _AddressSlicer(settings.geom.colbits, address_align)
